@@ -17,11 +17,13 @@ META = {
     "property_id": PID,
     "level": "model_checking",
     "technique": "TLA+ specification SQLTriggers (trigger execution order with FOLLOWS / PRECEDES and the per-row BEFORE -> edit -> AFTER semantics over the SQLTables statement semantics) model-checked for all trigger sequences of up to 3 triggers per event (OncePerRow, OrderRespected, FailedNoEffect, SetStored); TLC validates every statement of recorded engine histories (reply, base table, the exact sequence of audit entries added) and generates trigger sets and behaviours that the engine executes",
-    "text": "For generated sets of BEFORE / AFTER INSERT / UPDATE / DELETE triggers (FOLLOWS / PRECEDES; audit, SET NEW.c = expr, conditional SIGNAL bodies) every body runs exactly once per affected row, in the prescribed order, BEFORE bodies before and AFTER bodies after the row's edit, with the prescribed OLD / NEW values; what a BEFORE trigger assigns to NEW is what gets stored; a statement that fails leaves the base table and the audit table unchanged.",
-    "note": "Multi-row UPDATE / DELETE carry ORDER BY <primary key> so that the processing order (hence the audit sequence) is determined. Not generated: updates that leave a designated row unchanged, REPLACE / ON DUPLICATE KEY UPDATE / IGNORE, triggers that modify the base table, stored-program bodies beyond the three templates.",
+    "text": "For generated sets of BEFORE / AFTER INSERT / UPDATE / DELETE triggers (FOLLOWS / PRECEDES; bodies = BEGIN .. END blocks of audit, SET NEW.c = expr, SET @var, conditional SIGNAL and DML statements on other tables) every body runs exactly once per affected row, in the prescribed order, BEFORE bodies before and AFTER bodies after the row's edit, with the prescribed OLD / NEW values; what a BEFORE trigger assigns to NEW is what gets stored; a DML statement inside a body fires the triggers of its own table per row it writes exactly like a top-level statement, wherever it stands in the body and to depth 2; a statement that fails leaves all tables and the audit table unchanged.",
+    "note": "Multi-row UPDATE / DELETE carry ORDER BY <primary key> so that the processing order (hence the audit sequence) is determined. Not generated: updates that leave a designated row unchanged, REPLACE / ON DUPLICATE KEY UPDATE / IGNORE, bodies that write the table whose statement fired them (MySQL rejects them), cyclic cascades, stored-program statements beyond the templates.",
 }
-RULE = ("seeded trigger sets on t1(c1 PK, c2, c3) (4-8 triggers; timing x event x {audit, SET NEW, SIGNAL}; FOLLOWS / PRECEDES an earlier trigger of the same "
-        "timing and event) x histories of 16-25 statements (INSERT of 1-3 rows, UPDATE / DELETE in primary-key order, key collisions, SIGNAL hits at any row); "
+RULE = ("seeded trigger sets on t1, t2, t3 (each c1 PK, c2, c3; 5-14 triggers; all six timing x event combinations; bodies = BEGIN .. END blocks of 1-3 statements "
+        "from {audit, SET NEW.c, SET @cnt, conditional SIGNAL, INSERT / UPDATE / DELETE on a lower table} in every order; cascades t1 -> t2 | t3 and t2 -> t3 whose "
+        "target tables carry their own BEFORE and AFTER triggers; FOLLOWS / PRECEDES an earlier trigger of the same table, timing and event) x histories of 18-27 "
+        "statements on all three tables (INSERT of 1-3 rows, UPDATE / DELETE in primary-key order, key collisions, SIGNAL hits at any row and depth); "
         "the audit table is read back ordered by its AUTO_INCREMENT column after every statement. Non-trivial = the statement added audit entries.")
 
 
@@ -31,15 +33,38 @@ def make(evs):
         if e.get("ev") == "schema":
             sch[e["h"]] = e
 
+    EV = {"ins": "insert", "upd": "update", "del": "delete"}
+
     def ctx(ev):
-        """Shape bookkeeping (never a verdict): `chain3` = some (timing, event) of the statement's kind has at least
-        three triggers of which at least two were created with FOLLOWS / PRECEDES."""
-        out = []
-        for tm in ("before", "after"):
-            g = [t for t in sch.get(ev["h"], {}).get("trigs", []) if t["event"] == ev["stmt"]["k"] and t["timing"] == tm]
-            if len(g) >= 3 and sum(1 for t in g if t["rel"]) >= 2:
-                out.append("chain3")
-        return ",".join(sorted(set(out)))
+        """Shape bookkeeping (never a verdict) over the (table, event) pairs the statement can reach (its own, and
+        those of the DML statements in the bodies of reachable triggers):
+        chain3    a reachable (table, timing, event) has at least three triggers of which at least two were created
+                  with FOLLOWS / PRECEDES;
+        innerset  a reachable BEFORE INSERT / UPDATE trigger's body holds an INSERT / UPDATE on a table whose own
+                  BEFORE trigger of that event assigns NEW."""
+        trigs = sch.get(ev["h"], {}).get("trigs", [])
+        reach, todo = set(), [(ev["stmt"]["t"], ev["stmt"]["k"])]
+        while todo:
+            te = todo.pop()
+            if te in reach:
+                continue
+            reach.add(te)
+            for t in trigs:
+                if (t["table"], t["event"]) == te:
+                    todo += [(b["t"], EV[b["k"]]) for b in t["body"] if b["k"] in EV]
+        out = set()
+        for (tb, evn) in reach:
+            for tm in ("before", "after"):
+                g = [t for t in trigs if t["table"] == tb and t["event"] == evn and t["timing"] == tm]
+                if len(g) >= 3 and sum(1 for t in g if t["rel"]) >= 2:
+                    out.add("chain3")
+            if evn in ("insert", "update"):
+                for p in [t for t in trigs if t["table"] == tb and t["event"] == evn and t["timing"] == "before"]:
+                    for b in p["body"]:
+                        if b["k"] in ("ins", "upd") and any(q["table"] == b["t"] and q["event"] == EV[b["k"]] and q["timing"] == "before"
+                                                             and any(x["k"] == "set" for x in q["body"]) for q in trigs):
+                            out.add("innerset")
+        return ",".join(sorted(out))
 
     def sig(m, ev):
         r = ev["reply"]
@@ -48,10 +73,10 @@ def make(evs):
     def det(m, ev):
         s = sch.get(ev["h"], {})
         return {"id": ev["id"], "history": ev["h"], "create": s.get("create"), "sql": ev.get("sql"), "reply": ev["reply"], "what": m["what"],
-                "base_table": d2.pretty_tabs(ev.get("post")), "audit_entries_added": d2.pretty_rows(m.get("got", [])),
-                "expected": {"kind": m["exp"]["kind"], "class": m["exp"]["class"], "base_table": d2.pretty_rows(m["exp"]["rows"]),
-                             "audit_entries": d2.pretty_rows(m["exp"]["aud"])},
-                "execution_order": m.get("order"),
+                "tables": d2.pretty_tabs(ev.get("post")), "audit_entries_added": d2.pretty_rows(m.get("got", [])), "cnt": ev.get("cnt"),
+                "expected": {"kind": m["exp"]["kind"], "class": m["exp"]["class"], "tables": d2.pretty_tabs(m["exp"]["db"]),
+                             "audit_entries": d2.pretty_rows(m["exp"]["aud"]), "cnt": m["exp"]["cnt"]},
+                "tables_that_differ": m.get("badtabs"),
                 "history_sql": [e["sql"] for e in evs.values() if e.get("ev") == "step" and e["h"] == ev["h"] and e["id"] <= ev["id"]]}
     return sig, det
 
@@ -71,8 +96,8 @@ def canon(rows):
 
 def binding_a(binp, v, scd, nbeh, depth):
     cases, expect, h, ntr, kinds = [], {}, 0, 0, {}
-    for evn in ("insert", "update", "delete"):
-        r = lib.tlc("MC_Trig", "MC_Trig_%s_sim.cfg" % evn, workers=1, simulate="num=%d" % nbeh, depth=depth, tlc_seed=lib.seed(), timeout=600, heap="3g")
+    for evn in ("insert", "update", "delete", "casc"):
+        r = lib.tlc("MC_Trig", "MC_Trig_%s_sim.cfg" % evn, workers=1, simulate="num=%d" % (nbeh * 2 if evn == "casc" else nbeh), depth=depth, tlc_seed=lib.seed(), timeout=600, heap="3g")
         if r.error:
             raise lib.Inconclusive("MC_Trig simulation (%s): %s" % (evn, r.error))
         trs, sc = r.jsons("TR"), r.jsons("SC")
@@ -101,7 +126,7 @@ def binding_a(binp, v, scd, nbeh, depth):
             e = evs[m["line"]]
             flagged.setdefault(e["h"], e["id"])
     direct = differ = 0
-    unexplained, diverged, nau = [], set(), {}
+    unexplained, diverged, nau, cnts = [], set(), {}, {}
     for e in evs.values():
         if e.get("ev") != "step":
             continue
@@ -111,7 +136,9 @@ def binding_a(binp, v, scd, nbeh, depth):
             continue
         t = expect[e["id"]]
         added = [row[1:] for row in e["audit"][prev:]]
-        same = canon(e["post"]["t1"]) == canon(t["post"]) and json.dumps(added, sort_keys=True) == json.dumps(t["aud"], sort_keys=True)
+        same = (all(canon(e["post"][tb]) == canon(t["post"][tb]) for tb in t["post"]) and json.dumps(added, sort_keys=True) == json.dumps(t["aud"], sort_keys=True)
+                and (t["kind"] != "ok" or e["cnt"] - cnts.get(e["h"], 0) == t["cnt"]))
+        cnts[e["h"]] = e["cnt"]
         direct += 1
         if not same:
             differ += 1
@@ -130,22 +157,22 @@ def check(tier):
     quick = tier == "quick"
     binp = lib.build("dml2")
     v = lib.Verdict(PID)
-    runs = ([("MC_Trig", "MC_Trig_insert_q.cfg", {"workers": 3}), ("MC_Trig", "MC_Trig_delete_q.cfg", {"workers": 2})] if quick else
-            [("MC_Trig", "MC_Trig_%s.cfg" % e, {"workers": 5, "timeout": 3000}) for e in ("insert", "update", "delete")])
+    runs = ([("MC_Trig", "MC_Trig_insert_q.cfg", {"workers": 3}), ("MC_Trig", "MC_Trig_casc_q.cfg", {"workers": 3})] if quick else
+            [("MC_Trig", "MC_Trig_%s.cfg" % e, {"workers": 4, "timeout": 3000}) for e in ("insert", "update", "delete", "casc")])
     mc = d2.MC(runs)
     mc.start()
     try:
         with lib.Scratch() as scd:
             wit = WitnessesTrig(binp, scd)
             wit.start()
-            nh = 20 if quick else 160
+            nh = 16 if quick else 160
             trace, rep = d2.run_gen(binp, "c23", nh, scd, procs=3 if quick else 8)
             ex = rep["extra"]
             lib.log("[C23] %d histories, %d statements, %d fired audit triggers, trigger bodies %s, %.1fs"
                     % (nh, rep["cases"], ex.get("statements_that_fired_audit_triggers", 0), ex.get("trigger_bodies"), time.time() - t0))
             stats = judge(binp, trace, v, scd, "c", per_chunk=(nh + 3) // 4 if quick else 12, procs=4 if quick else 10)
             lib.log("[C23] validated %d events: %d disagreement(s), %d signature(s), %.1fs" % (stats["events"], stats["mismatches"], len(stats["signatures"]), time.time() - t0))
-            a = binding_a(binp, v, scd, 8 if quick else 60, 10)
+            a = binding_a(binp, v, scd, 6 if quick else 60, 10)
             lib.log("[C23] binding A: %d behaviours, %d steps replayed, %d compared directly (%d differ), %.1fs"
                     % (a["behaviours"], a["replayed"], a["direct_compared"], a["direct_differ"], time.time() - t0))
             kinds = ex.get("reply_kinds", {})
@@ -154,7 +181,10 @@ def check(tier):
                       "statements adding several audit entries": (ex.get("statements_with_several_audit_rows", 0), 60),
                       "triggers with FOLLOWS / PRECEDES": (ex.get("triggers_with_follows_or_precedes", 0), 8),
                       "SET NEW triggers": (sum(n for k, n in bodies.items() if k.endswith(" set")), 4),
-                      "SIGNAL failures": (kinds.get("err:signal", 0), 10), "directly compared steps": (a["direct_compared"], 100)}
+                      "SIGNAL failures": (kinds.get("err:signal", 0), 10), "directly compared steps": (a["direct_compared"], 100),
+                      "triggers whose body writes another table": (ex.get("cascading_triggers", 0), 15),
+                      "body DML statements that are not the last statement": (ex.get("body_dml_statements_not_last", 0), 8),
+                      "statements whose cascade fired another table's triggers": (ex.get("statements_whose_cascade_fired_other_tables_triggers", 0), 25)}
             for what, (got, floor) in floors.items():
                 if got < floor and not v.violations:
                     raise lib.Inconclusive("vacuous run: %s = %d < %d" % (what, got, floor))
@@ -173,6 +203,9 @@ def check(tier):
                    "model_states": mstates, "model_transitions": mtrans, "models": [c for _, c, _ in mc.results],
                    "trigger_bodies": bodies, "triggers_with_follows_or_precedes": ex.get("triggers_with_follows_or_precedes"), "reply_kinds": kinds,
                    "statements_that_fired_audit_triggers": ex.get("statements_that_fired_audit_triggers"),
+                   "cascading_triggers": ex.get("cascading_triggers"), "body_dml_statements_not_last": ex.get("body_dml_statements_not_last"),
+                   "multi_statement_bodies": ex.get("multi_statement_bodies"),
+                   "statements_whose_cascade_fired_other_tables_triggers": ex.get("statements_whose_cascade_fired_other_tables_triggers"),
                    "disagreements": stats["mismatches"], "confirmed_in_isolation": stats["confirmed"] + a["confirmed"],
                    "signatures": sorted(set(stats["signatures"] + a["signatures"])), "witness_mismatches": nw,
                    "binding_a": {k: a[k] for k in a if k != "signatures"}}
